@@ -60,9 +60,18 @@ pub struct Scenario {
 	/// quick-tier schedule budget of this scenario when it differs from the default
 	#[serde(default)]
 	quick_budget: Option<u64>,
+	/// base world variant in which the wallet also holds an incoming payment that the sender has finalised
+	/// and posted: its output is unconfirmed, its transaction waits in the pool for the next block, and it is
+	/// the smallest output, so the send initiated by the Init unit selects it as soon as it is confirmed
+	#[serde(default)]
+	incoming: bool,
 }
 
 fn base_world(dir: &str, ttl: bool, restored: bool) {
+	base_world_v(dir, ttl, restored, false)
+}
+
+fn base_world_v(dir: &str, ttl: bool, restored: bool, incoming: bool) {
 	let mut w = World::create(dir, &[("A", "A"), ("B", "B"), ("M", "M")]);
 	w.mine_n("A", 5);
 	w.mine_n("B", 3);
@@ -71,6 +80,14 @@ fn base_world(dir: &str, ttl: bool, restored: bool) {
 	w.w("B").refresh().unwrap();
 	let a = w.w("A");
 	let b = w.w("B");
+	if incoming {
+		// X: an incoming payment, finalised and posted by its sender, waiting in the pool
+		let x1 = b.init_send(default_args(7 * G)).unwrap();
+		b.lock(&x1).unwrap();
+		let x2 = a.receive(&x1, None).unwrap();
+		let x3 = b.finalize(&x2).unwrap();
+		b.post(x3.tx_or_err().unwrap()).unwrap();
+	}
 	// P: a no-change send, finalised and posted, awaiting its kernel on chain
 	let exact = 60 * G - grin_core::libtx::tx_fee(1, 1, 1);
 	let s1 = a.init_send(default_args(exact)).unwrap();
@@ -559,7 +576,7 @@ fn explore_scenario(root: &str, base: &Snapshot, sc: &Scenario, bound: Option<us
 }
 
 fn scenarios(thorough: bool) -> Vec<Scenario> {
-	let sc = |name: &str, r: Unit, ops: Vec<Vec<Unit>>, ev: Vec<Unit>| Scenario { name: name.into(), refresher: r, ops, events: ev, ttl: false, restored: false, quick_budget: None };
+	let sc = |name: &str, r: Unit, ops: Vec<Vec<Unit>>, ev: Vec<Unit>| Scenario { name: name.into(), refresher: r, ops, events: ev, ttl: false, restored: false, quick_budget: None, incoming: false };
 	let il = || vec![Unit::Init, Unit::Lock];
 	let mut v = vec![
 		sc("refresh+cancel-posted+mine", Unit::Refresh, vec![vec![Unit::CancelPosted]], vec![Unit::EvMine]),
@@ -574,6 +591,7 @@ fn scenarios(thorough: bool) -> Vec<Scenario> {
 		// level 2 of this one holds the schedules in which the cancel completes between the refresh's
 		// reading of its list and its TTL sweep, with the block already mined: give it room in the quick tier
 		Scenario { ttl: true, quick_budget: Some(2600), ..sc("refresh+cancel-expiring+mine", Unit::Refresh, vec![vec![Unit::CancelWaiting]], vec![Unit::EvMine]) },
+		Scenario { incoming: true, ..sc("incoming:refresh+init-lock+mine", Unit::Refresh, vec![il()], vec![Unit::EvMine]) },
 		Scenario { restored: true, ..sc("restored:scan+receive+receive", Unit::Scan { delete_unconfirmed: false }, vec![vec![Unit::Receive, Unit::Receive2]], vec![]) },
 	];
 	if thorough {
@@ -595,7 +613,7 @@ pub fn replay(payload: &Value) -> i32 {
 	let root = scratch_root();
 	let sc: Scenario = serde_json::from_value(payload["scenario"].clone()).unwrap();
 	let based = format!("{}/c20-replay-base", root);
-	base_world(&based, sc.ttl, sc.restored);
+	base_world_v(&based, sc.ttl, sc.restored, sc.incoming);
 	let base = Snapshot::capture(&based);
 	let schedule: Vec<usize> = serde_json::from_value(payload["schedule"].clone()).unwrap_or_default();
 	let perms = permutations(&sc);
@@ -634,6 +652,9 @@ pub fn run(_args: &[String]) -> i32 {
 	let based_res = format!("{}/c20-base-restored", root);
 	base_world(&based_res, false, true);
 	let base_res = Snapshot::capture(&based_res);
+	let based_inc = format!("{}/c20-base-incoming", root);
+	base_world_v(&based_inc, false, false, true);
+	let base_inc = Snapshot::capture(&based_inc);
 	let mut scs = scenarios(thorough);
 	// recorded schedules of the known findings: re-run in every tier (pinned/C20.json, committed)
 	let pinned: Vec<Value> = std::fs::read(format!("{}/pinned/C20.json", verif_root())).ok().and_then(|b| serde_json::from_slice(&b).ok()).unwrap_or_default();
@@ -659,7 +680,7 @@ pub fn run(_args: &[String]) -> i32 {
 		let budget: u64 = std::env::var("GWV_C20_BUDGET").ok().and_then(|v| v.parse().ok()).unwrap_or(if thorough { 40_000 } else { sc.quick_budget.unwrap_or(700) });
 		let pins: Vec<Vec<usize>> = pinned.iter().filter(|p| p["scenario"]["name"] == json!(sc.name)).filter_map(|p| serde_json::from_value(p["schedule"].clone()).ok()).collect();
 		let pinned_only = !thorough && std::env::var("GWV_C20_SCENARIO").is_err() && !scenarios(false).iter().any(|q| q.name == sc.name);
-		let base = if sc.restored { &base_res } else if sc.ttl { &base_ttl } else { &base_plain };
+		let base = if sc.incoming { &base_inc } else if sc.restored { &base_res } else if sc.ttl { &base_ttl } else { &base_plain };
 		let r = explore_scenario(&root, base, sc, None, per_wall, if pinned_only { 0 } else { budget }, &pins);
 		total += r.schedules;
 		distinct_total += r.distinct_final;
